@@ -28,6 +28,9 @@ type C08IncCase struct {
 	Root    bool     `json:"root"`
 	CRLF    bool     `json:"crlf"`
 	Extra   []string `json:"extra,omitempty"` // further (valid) lines of main after its include
+	// the include directives of main / of l1 are written as patterns that match exactly the one file
+	MainGlob bool `json:"main_glob,omitempty"`
+	L1Glob   bool `json:"l1_glob,omitempty"`
 }
 
 var c08incSeq int
@@ -47,8 +50,15 @@ func c08IncCheck(c *C08IncCase) []ev.Discrepancy {
 	if c.Problem == "self" {
 		problem = fmt.Sprintf(problem, c.Level)
 	}
+	incL1, incL2 := "include l1.journal", "include l2.journal"
+	if c.MainGlob {
+		incL1 = "include l1*.journal"
+	}
+	if c.L1Glob {
+		incL2 = "include l[2].journal"
+	}
 	files := map[string]string{
-		"l1.journal":  pad(c.Pad[1]) + "include l2.journal" + nl + tx,
+		"l1.journal":  pad(c.Pad[1]) + incL2 + nl + tx,
 		"l2.journal":  pad(c.Pad[2]) + tx,
 		"l3.journal":  "include l4.journal" + nl + tx,
 		"l4.journal":  tx,
@@ -56,7 +66,7 @@ func c08IncCheck(c *C08IncCase) []ev.Discrepancy {
 	}
 	key := fmt.Sprintf("l%d.journal", c.Level)
 	files[key] = strings.Replace(files[key], tx, problem+nl+tx, 1)
-	mainText := pad(c.Pad[0]) + "include l1.journal" + nl + strings.ReplaceAll(strings.Join(c.Extra, "\n"), "\n", nl)
+	mainText := pad(c.Pad[0]) + incL1 + nl + strings.ReplaceAll(strings.Join(c.Extra, "\n"), "\n", nl)
 	if len(c.Extra) > 0 {
 		mainText += nl
 	}
@@ -122,7 +132,8 @@ func TestC08Includes(t *testing.T) {
 		}
 		n++
 		c := &C08IncCase{Problem: rapid.SampledFrom([]string{"missing", "cycle", "self", "toodeep", "oversized"}).Draw(t, "problem"),
-			Level: rapid.IntRange(1, 2).Draw(t, "level"), Root: rapid.Bool().Draw(t, "root"), CRLF: rapid.Bool().Draw(t, "crlf")}
+			Level: rapid.IntRange(1, 2).Draw(t, "level"), Root: rapid.Bool().Draw(t, "root"), CRLF: rapid.Bool().Draw(t, "crlf"),
+			MainGlob: rapid.IntRange(0, 2).Draw(t, "mainglob") == 0, L1Glob: rapid.IntRange(0, 2).Draw(t, "l1glob") == 0}
 		for i := 0; i < 3; i++ {
 			c.Pad = append(c.Pad, rapid.SampledFrom([]int{0, 1, 3, 12, 40}).Draw(t, "pad"))
 		}
@@ -130,7 +141,7 @@ func TestC08Includes(t *testing.T) {
 			c.Extra = append(c.Extra, rapid.SampledFrom([]string{"", "; note é😀", "account expenses:food", "2024-02-02 x\n    expenses:food  2 EUR\n    assets:cash\n"}).Draw(t, "line"))
 		}
 		ds := c08IncCheck(c)
-		recC08.Case(c.Pad[c.Level] > c.Pad[0]+len(c.Extra), mustJSON(c), "include-problem:"+c.Problem, fmt.Sprintf("nested-level:%d", c.Level))
+		recC08.Case(c.Pad[c.Level] > c.Pad[0]+len(c.Extra), mustJSON(c), "include-problem:"+c.Problem, fmt.Sprintf("nested-level:%d", c.Level), fmt.Sprintf("include-by-pattern:%v", c.MainGlob || c.L1Glob))
 		report(t, recC08, "c08inc", c, ds)
 	})
 }
